@@ -1643,7 +1643,7 @@ UNITS["validate"] = {
 impl LayersData {
     #[verifier::external_body]
     pub fn from_vec(layers: Vec<LayerData>) -> (r: Result<LayersData>)
-        ensures r is Ok ==> r->Ok_0.layers@ == layers@,
+        ensures r is Ok ==> r->Ok_0.layers@ == layers@ && layers@.len() <= 65536,
     { unimplemented!() }
 }
 /// what TilesetsById::validate establishes for one tileset (unit validate_tilesets: tileset_validated)
@@ -1664,11 +1664,10 @@ impl TilesetsById<RawPixels> {
          "rewrites": [("layer::LayersData", "LayersData"), ("cel::CelsData<Pixels>", "CelsData<Pixels>"), ("Arc<palette::ColorPalette>", "Arc<ColorPalette>")]},
         {"kind": "fn", "file": "parse", "name": "validate", "key": "ParseInfo::validate", "impl_of": "ParseInfo", "ret": "r", "rules": ["R1", "R6", "R11"],
          "requires": ("        self.framedata.data@.len() == self.framedata.num_frames as int, self.framedata.num_frames <= 65535,\n"
-                      "        forall|f: int| 0 <= f < self.framedata.data@.len() ==> (#[trigger] self.framedata.data@[f])@.len() <= 65536,\n"
-                      "        self.layers@.len() < 0x1_0000_0000,"),
+                      "        forall|f: int| 0 <= f < self.framedata.data@.len() ==> (#[trigger] self.framedata.data@[f])@.len() <= 65536,"),
          "ensures": ("        // C05: what a successful load establishes for every accessor (the renderer's R-pre)\n"
                      "        r is Ok ==> ({ let v = r->Ok_0;\n"
-                     "            &&& v.layers.layers@ == self.layers@\n"
+                     "            &&& v.layers.layers@ == self.layers@ && v.layers.layers@.len() <= 65536\n"
                      "            &&& forall|k: u32| v.tilesets.map().dom().contains(k) ==> (#[trigger] v.tilesets.map()[k]).pixels is Some\n"
                      "            &&& forall|i: int| 0 <= i < v.layers.layers@.len() ==> (v.layers.layers@[i].layer_type is Tilemap ==> v.tilesets.map().dom().contains(#[trigger] v.layers.layers@[i].layer_type->Tilemap_0))\n"
                      "            &&& v.framedata.num_frames == self.framedata.num_frames && v.framedata.data@.len() == self.framedata.data@.len()\n"
@@ -2015,6 +2014,7 @@ pub open spec fn ceil_div(a: int, b: int) -> int { (a + b - 1) / b }
         {"kind": "fn", "file": "file", "name": "num_frames", "impl_of": "AsepriteFile", "ret": "r", "ensures": "        r == self.num_frames as u32,"},
         {"kind": "fn", "file": "file", "name": "width", "key": "AsepriteFile::width", "impl_of": "AsepriteFile", "ret": "r", "ensures": "        r == self.width as usize,"},
         {"kind": "fn", "file": "file", "name": "height", "key": "AsepriteFile::height", "impl_of": "AsepriteFile", "ret": "r", "ensures": "        r == self.height as usize,"},
+        {"kind": "fn", "file": "file", "name": "size", "key": "AsepriteFile::size", "impl_of": "AsepriteFile", "ret": "r", "ensures": "        r == (self.width as usize, self.height as usize),"},
         {"kind": "fn", "file": "file", "name": "cel", "key": "AsepriteFile::cel", "impl_of": "AsepriteFile", "ret": "r",
          "requires": "        self.layers.layers.len() <= 65536, frame < self.num_frames as u32, (layer as int) < self.layers.layers.len(),",
          "ensures": "        r.cel_id.frame as u32 == frame, r.cel_id.layer as u32 == layer, r.file == self,"},
